@@ -349,15 +349,30 @@ def _convert_condbr(
     parent = op.parent_block()
     assert parent is not None
     current_block = block_map[parent]
-    for arg, val in zip(then_block.args, op.then_arguments):
-        phi = val_map[arg]
-        assert isinstance(phi, PhiInstr)
-        phi.add_incoming(val_map[val], current_block)
-    for arg, val in zip(else_block.args, op.else_arguments):
-        phi = val_map[arg]
-        assert isinstance(phi, PhiInstr)
-        phi.add_incoming(val_map[val], current_block)
-    builder.cbranch(val_map[op.cond], block_map[then_block], block_map[else_block])
+    cond = val_map[op.cond]
+    if then_block is else_block:
+        # Both edges reach the same block: LLVM requires the phi entries of one
+        # predecessor to be equal, so operands that differ are merged by a select.
+        for arg, then_val, else_val in zip(
+            then_block.args, op.then_arguments, op.else_arguments
+        ):
+            phi = val_map[arg]
+            assert isinstance(phi, PhiInstr)
+            incoming = val_map[then_val]
+            if then_val is not else_val:
+                incoming = builder.select(cond, incoming, val_map[else_val])
+            phi.add_incoming(incoming, current_block)
+            phi.add_incoming(incoming, current_block)
+    else:
+        for arg, val in zip(then_block.args, op.then_arguments):
+            phi = val_map[arg]
+            assert isinstance(phi, PhiInstr)
+            phi.add_incoming(val_map[val], current_block)
+        for arg, val in zip(else_block.args, op.else_arguments):
+            phi = val_map[arg]
+            assert isinstance(phi, PhiInstr)
+            phi.add_incoming(val_map[val], current_block)
+    builder.cbranch(cond, block_map[then_block], block_map[else_block])
 
 
 def _convert_masked_store(
